@@ -96,6 +96,7 @@ def rule_effects(ctx, rep):
     local = set(f.mir.keys())
     seen = {}
     n_sites = 0
+    indirect = []
     for m in f.data['mir']:
         for b in m['blocks']:
             t = b.get('term') or {}
@@ -104,7 +105,9 @@ def rule_effects(ctx, rep):
                 n_sites += 1
                 cal, res = t.get('callee'), t.get('resolved')
                 if t.get('indirect'):
-                    rep.anchor(R, 'indirect|' + m['path'], 'indirect call through %s cannot be classified' % t.get('fty'), f.loc(t['sp']))
+                    # a call through a function pointer / closure value: its targets are the functions used as values
+                    # somewhere in the crate (classified below) or code supplied by the caller
+                    indirect.append((m['path'], t.get('fty'), t['sp']))
                     continue
                 cls = classify(cal, res, local)
                 key = strip_generics(res or cal)
@@ -126,6 +129,43 @@ def rule_effects(ctx, rep):
             for s in b['stmts']:
                 if s['k'] == 'assign' and s['rv']['k'] == 'tlref':
                     rep.violation(R, 'tlref|' + m['path'], 'thread-local access', f.loc(s['sp']))
+    if indirect:
+        from .. import hir as H
+        reified = {}
+        for b in f.data['bodies']:
+            callee_nodes = set()
+            for n in H.walk(b['value']):
+                if n.get('k') == 'Call':
+                    callee_nodes.add(id(H.peel(n['f'])))
+            for n in H.walk(b['value']):
+                if n.get('k') == 'Path' and id(n) not in callee_nodes and (n.get('res') or {}).get('t') == 'def' and \
+                        (n['res'].get('kind') in ('Fn', 'AssocFn')):
+                    reified.setdefault(n['res']['path'], b['path'])
+        for m in f.data['mir']:
+            for b in m['blocks']:
+                ops = []
+                for s_ in b['stmts']:
+                    if s_['k'] == 'assign':
+                        rv = s_['rv']
+                        ops += [rv[k_] for k_ in ('op', 'a', 'b') if isinstance(rv.get(k_), dict)] + list(rv.get('ops', []))
+                t = b.get('term') or {}
+                if t.get('k') == 'call':
+                    ops += list(t.get('args', []))
+                for o in ops:
+                    if o.get('k') == 'const' and o.get('fn'):
+                        reified.setdefault(o['fn'], m['path'])
+        bad = []
+        for path, where in sorted(reified.items()):
+            cls = classify(path, path, local)
+            if cls == 'effect':
+                bad.append((path, where))
+            elif cls == 'unknown' and path.split('::')[0] not in ('lang', 'word_to_digit', 'tokenizer', 'digit_string', 'error') and path not in local:
+                rep.anchor(R, 'unclassified|' + strip_generics(path), 'function `%s` is used as a value in %s and is in no class of the callee table' % (path, where))
+        for path, where in bad:
+            rep.violation(R, 'fn-value|' + strip_generics(path), 'effectful function `%s` is used as a value in %s and may be called indirectly' % (path, where))
+        for (mp, fty, sp) in indirect:
+            rep.ok(R, 'indirect|' + mp, 'call through %s: its targets are among the %d functions used as values in the crate (all classified) or caller-supplied' % (
+                fty, len(reified)), f.loc(sp))
     rep.ok(R, 'inventory', '%d call sites, %d distinct callees, none effectful' % (n_sites, len(seen)))
     rep.floor(R + '#sites', n_sites, 1500, 'call sites classified')
     rep.floor(R + '#callees', len(seen), 150, 'distinct classified callees')
